@@ -282,6 +282,18 @@ func runLife(tr *Tracer, cur *int64, scn *lifeScn) {
 				}
 			}
 			settle()
+		case "floodother":
+			// malformed responses for another logical channel, more than its error queue holds, nobody receiving
+			// there: that is that channel's trouble, the channel under observation is not told about it
+			r.emit(Ev{"ev": "Stray", "n": 0})
+			if len(extras) > 0 {
+				oid := extras[0].VerifChannelID()
+				for i := 0; i < op.N; i++ {
+					r.mc.Feed(mkPacket(4, 1, oid, 0, []byte{tokRow, 0, 0})) // a ROW without a format
+				}
+			}
+			time.Sleep(60 * time.Millisecond)
+			settle()
 		case "proto":
 			// a header-only packet of the channel protocol (an acknowledgement nobody waits for)
 			r.emit(Ev{"ev": "Stray", "n": 1})
@@ -485,6 +497,7 @@ func lifeMain(args []string) error {
 	count := fs.Int("count", 0, "random scenarios")
 	slow := fs.Bool("slow", false, "include the peer that never answers the logout (about 60 s)")
 	slowOnly := fs.Bool("slowonly", false, "only the scenarios with a peer that never answers the logout (Close returns after the logout's own minute)")
+	floodOnly := fs.Bool("floodonly", false, "of the directed scenarios only those in which another channel's error queue overflows (C12: isolation)")
 	logoutOnly := fs.Bool("logoutonly", false, "of the directed scenarios only those in which the peer answers the logout with another package than DONE (C10)")
 	part := fs.Int("part", 0, "process index")
 	parts := fs.Int("parts", 1, "processes")
@@ -605,6 +618,11 @@ func lifeMain(args []string) error {
 			scns = append(scns, lifeScn{K: k, Answers: true, Chan: 1, Extra: 2, Ops: []lifeOp{{Op: "closeother", N: 0}, {Op: "connclose"}, {Op: "next"}, {Op: "send"}}})
 			scns = append(scns, lifeScn{K: k, Answers: true, Chan: 1, Extra: 3, Ops: []lifeOp{{Op: "closeother", N: 1}, {Op: "closeother", N: 0}, {Op: "connclose"}, {Op: "next", Wait: bp(false)}}})
 			// Close while a send is still inside its transport write
+			// another channel's error queue overflows: this channel is not handed that channel's errors (the reader
+			// goroutine waits for room there, as it does behind a full package queue - so nothing is *received* here
+			// meanwhile, which is the library's flow control and not judged)
+			scns = append(scns, lifeScn{K: k, Answers: true, Chan: 1, Extra: 1, Ops: []lifeOp{{Op: "floodother", N: 14}, {Op: "next", Wait: bp(false)}, {Op: "next", Wait: bp(false)}, {Op: "send"}}})
+			scns = append(scns, lifeScn{K: k, Answers: true, Chan: 0, Extra: 1, Ops: []lifeOp{{Op: "floodother", N: 25}, {Op: "next", Wait: bp(false)}, {Op: "send"}}})
 			// every entry point of the send side on a closed channel, and with a cancelled context
 			scns = append(scns, lifeScn{K: k, Answers: true, Chan: 1, Ops: []lifeOp{{Op: "flush"}, {Op: "queue"}, {Op: "close"}, {Op: "flush"}, {Op: "queue"}, {Op: "send"}}})
 			scns = append(scns, lifeScn{K: k, Answers: true, Ops: []lifeOp{{Op: "queue", Ctx: "cancelled"}, {Op: "flush", Ctx: "cancelled"}, {Op: "connclose"}, {Op: "flush"}, {Op: "queue"}}})
@@ -657,6 +675,18 @@ func lifeMain(args []string) error {
 			}
 		}
 		scns = append(scns, s)
+	}
+	if *floodOnly {
+		var keep []lifeScn
+		for _, sc := range scns {
+			for _, o := range sc.Ops {
+				if o.Op == "floodother" {
+					keep = append(keep, sc)
+					break
+				}
+			}
+		}
+		scns = keep
 	}
 	if *logoutOnly {
 		var keep []lifeScn
